@@ -183,6 +183,38 @@ pub struct C02Node {
     pub algos: [u8; 3],
     pub seed: u64,
     pub frames: u8,
+    /// how each node gets its cipher list: 0 set in the Config struct, 1 config file only, 2 command line only,
+    /// 3 config file (list `file_algos[i]`) AND command line (list `algos[i]`) - the command line wins, so the
+    /// node has enabled exactly `algos[i]`; the configuration goes through the real file parser, argument parser
+    /// and merge functions
+    #[serde(default)]
+    pub via: [u8; 3],
+    #[serde(default)]
+    pub file_algos: [u8; 3],
+}
+
+/// effective configuration produced by the real configuration path (YAML file text + argv), as main() builds it
+fn config_via(via: u8, mask: u8, file_mask: u8) -> Result<vpncloud::config::Config, String> {
+    let yaml_list = |m: u8| algo_list(m).iter().map(|a| format!("\"{}\"", a)).collect::<Vec<_>>().join(", ");
+    let mut yaml = "crypto:\n  password: test123\n".to_string();
+    let mut argv: Vec<String> = vec!["vpncloud".into()];
+    match via % 4 {
+        1 => yaml.push_str(&format!("  algorithms: [{}]\n", yaml_list(mask))),
+        2 => {
+            for a in algo_list(mask) {
+                argv.push("--algorithm".into());
+                argv.push(a);
+            }
+        }
+        _ => {
+            yaml.push_str(&format!("  algorithms: [{}]\n", yaml_list(file_mask)));
+            for a in algo_list(mask) {
+                argv.push("--algorithm".into());
+                argv.push(a);
+            }
+        }
+    }
+    crate::props::c20::merge_real(&Some(yaml), &argv)
 }
 
 fn algo_list(mask: u8) -> Vec<String> {
@@ -212,7 +244,21 @@ pub fn c02_node_case(ctx: &Ctx, c: &C02Node) -> Vec<Viol> {
         cfg.auto_claim = false;
         cfg.claims = vec![claims[i].to_string()];
         let mask = c.algos[i] & 0xf;
-        cfg.crypto.algorithms = algo_list(if mask & 0xe == 0 && mask & 1 == 0 { 0xe } else { mask });
+        let mask = if mask & 0xe == 0 && mask & 1 == 0 { 0xe } else { mask };
+        cfg.crypto.algorithms = algo_list(mask);
+        if c.via[i] % 4 != 0 {
+            // same node, but its cipher list comes out of the real configuration path
+            match config_via(c.via[i], mask, c.file_algos[i] & 0xf) {
+                Ok(real) => {
+                    cfg.crypto = real.crypto;
+                    ctx.class(["", "c02-node:list-from-file", "c02-node:list-from-command-line", "c02-node:list-from-file-and-command-line"][(c.via[i] % 4) as usize]);
+                }
+                Err(e) => {
+                    out.push(Viol::new("configuration-rejected", format!("node {}: {}", i, e), cj()));
+                    return out;
+                }
+            }
+        }
         sim.add_node(&cfg, false);
     }
     sim.record = true;
@@ -539,9 +585,29 @@ pub fn c02_node(ctx: &Ctx) {
         });
         ctx.subspace("node level: peer restarts on the same address with other cipher settings (6 x 6 x 6 cipher lists x who dials / who restarts x 0 / 3 / 70 s uptime)", total, true);
     }
+    // cipher lists that come out of the real configuration path: file x command line, all 16 x 16 list pairs for a
+    // node pair in which both nodes are configured the same way (plain must be used iff the EFFECTIVE lists both have it)
+    {
+        let mut cases = vec![];
+        for cli in 1..16u8 {
+            for file in 0..16u8 {
+                if ctx.quick() && (cli as usize * 16 + file as usize) % 3 != 0 && !(file & 1 == 1 && cli & 1 == 0) {
+                    continue;
+                }
+                cases.push(C02Node { algos: [cli, cli, 0xe], seed: cli as u64 * 131 + file as u64, frames: 3, via: [3, 3, 0], file_algos: [file, file, 0] });
+            }
+            cases.push(C02Node { algos: [cli, cli, 0xf], seed: cli as u64, frames: 3, via: [1, 2, 1], file_algos: [0; 3] });
+        }
+        let total = cases.len() as u64;
+        ctx.par_items(&cases, |_, c| {
+            let v = c02_node_case(ctx, c);
+            ctx.report(v);
+        });
+        ctx.subspace("node level: cipher lists produced by the real configuration path (YAML file x command line, command line wins) x 15 x 16 list pairs", total, ctx.tier == crate::engine::Tier::Thorough);
+    }
     let n: u32 = ctx.tier.pick(300, 4_000);
-    ctx.proptest("pt-c02-node", n, || (any::<[u8; 3]>(), any::<u64>(), any::<u8>()), |(algos, seed, frames)| {
-        let c = C02Node { algos: [algos[0] & 0xf, algos[1] & 0xf, algos[2] & 0xf], seed: *seed, frames: *frames };
+    ctx.proptest("pt-c02-node", n, || (any::<[u8; 3]>(), any::<u64>(), any::<u8>(), prop_oneof![Just([0u8; 3]), any::<[u8; 3]>()], any::<[u8; 3]>()), |(algos, seed, frames, via, file_algos)| {
+        let c = C02Node { algos: [algos[0] & 0xf, algos[1] & 0xf, algos[2] & 0xf], seed: *seed, frames: *frames, via: [via[0] % 4, via[1] % 4, via[2] % 4], file_algos: [file_algos[0] & 0xf, file_algos[1] & 0xf, file_algos[2] & 0xf] };
         let v = c02_node_case(ctx, &c);
         ctx.sample("mesh", || serde_json::to_value(&c).unwrap());
         v
